@@ -135,6 +135,19 @@ def r13b(model: Model, rr: RuleResult):
             rr.bad(fi, fi.node, f"{name} ({num}) is in the supported set of the property but has no branch: it now raises", construct=f"dispatch: {name} unhandled")
         else:
             rr.ok(f"{name} ({num}): no branch -> NotImplementedError (loud)")
+    # a "seen" set that only grows makes the walk skip every later reference to the same glyph, not just cycles
+    for st in ast.walk(fi.node):
+        if isinstance(st, ast.If) and isinstance(st.test, ast.Compare) and len(st.test.ops) == 1 and isinstance(st.test.ops[0], ast.In) \
+                and any(isinstance(b, (ast.Return, ast.Continue)) for b in st.body):
+            sname = norm(st.test.comparators[0])
+            adds = [c for c in calls_in(fi, nested=True) if callee_tail(c) == "add" and norm(c.func.value) == sname]
+            drops = [c for c in calls_in(fi, nested=True) if callee_tail(c) in ("remove", "discard", "pop", "clear") and norm(c.func.value) == sname]
+            copies = [x for x in ast.walk(fi.node) if isinstance(x, ast.BinOp) and isinstance(x.op, ast.BitOr) and sname in norm(x)] + \
+                [c for c in calls_in(fi, nested=True) if callee_tail(c) in ("union", "copy") and sname in norm(c)]
+            if adds and not drops and not copies:
+                rr.bad(fi, st, f"`{short(st.test)}` skips a paint whose glyph is already in `{sname}`, and `{sname}` only ever grows during the walk ({short(adds[0])}, never removed): it holds every "
+                       f"glyph drawn so far, not the chain being drawn, so the second and later PaintColrGlyph references to one colour glyph (two eyes from one eye glyph) are dropped",
+                       construct=f"_colr_v1_paint_to_svg: visited-set {sname} never shrinks")
     # the unsupported-composite path warns before descending
     comp = [st for st in ast.walk(fi.node) if isinstance(st, ast.If) and norm(st.test) == "ot_paint.Format == PaintComposite.format"]
     if comp:
